@@ -322,8 +322,10 @@ class Report:
             "samples": self.samples or ["(no case generated)"],
             "obligations": max(1, obligations),
             "discharged": obligations if proof.get("ok") else 0,
-            "checker_cmd": "./build.sh (coq_makefile + make of every .v, forbidden-vernacular scan, extraction) ; "
-                           "coqc -Q coq/theories PGA -Q coq/gen PGAgen -Q coq/props PGAprops coq/props/%s.v" % self.prop_id,
+            "checker_cmd": "./build.sh (translators harness/gen_*.py on the current source, coq_makefile + make of every .v, forbidden-vernacular scan, "
+                           "extraction) ; in a scratch directory: coqc of the regenerated definitions this property uses, then "
+                           "coqc -Q coq/theories PGA -Q coq/gen PGAgen -Q <scratch> PGAprops %s.v with Print Assumptions appended for every theorem" % self.prop_id,
+            "regenerated_from_source": proof.get("generated", []),
             "trusted_base": trusted_base,
             "theorems": proof.get("theorems", []),
             "print_assumptions": proof.get("assumptions", {}),
